@@ -138,6 +138,16 @@ def oracle_gemini(ctx, base, logical):
             ctx.fail({"builder": "gemini.logical", "problem": "constant", "fact": what}, rep, f"published constant disagrees with the geometry: {what}")
 
 
+def build(ctx, name, fn, args, rep):
+    """a builder must return a spec for every size >= 1 and every positive spacing"""
+    try:
+        return fn(*args)
+    except Exception as e:
+        ctx.fail({"builder": name, "problem": "raises on a documented input", "error": type(e).__name__}, dict(rep, builder=name),
+                 f"{name}{args} raises {type(e).__name__}: {str(e)[:120]} although every size >= 1 and positive spacing is documented as valid")
+        return None
+
+
 def builder_histories(ctx):
     """what a builder returns does not depend on which builders were called before it, and a value already
     returned is not changed by later calls (every ordered pair of builders, each called before and after the other)"""
@@ -186,8 +196,10 @@ def run(ctx):
     for nx, ny in itertools.product(range(1, N + 1), repeat=2):
         for s in SP:
             rep = {"builder": "single", "args": [nx, ny, s]}
-            S = single_col_zone.get_spec(nx, ny, s)
-            D = old_spec.single_zone_spec(nx, ny, s)
+            S = build(ctx, "single_col_zone.get_spec", single_col_zone.get_spec, (nx, ny, s), rep)
+            D = build(ctx, "stdlib.spec.single_zone_spec", old_spec.single_zone_spec, (nx, ny, s), rep)
+            if S is None or D is None:
+                continue
             oracle_single(ctx, "single_col_zone.get_spec", S, nx, ny, s, rep)
             oracle_single(ctx, "stdlib.spec.single_zone_spec", D, nx, ny, s, rep)
             if not (S == D) or hash(S) != hash(D):
@@ -199,7 +211,9 @@ def run(ctx):
             ctx.nt(("single", nx, ny, s))
             for gs in GS:
                 rep = {"builder": "two_col", "args": [nx, ny, s, gs]}
-                T = two_col_zone.get_spec(nx, ny, s, gs)
+                T = build(ctx, "two_col_zone.get_spec", two_col_zone.get_spec, (nx, ny, s, gs), rep)
+                if T is None:
+                    continue
                 oracle_two_col(ctx, T, nx, ny, s, gs, rep)
                 cases.append((f"show_spec (two_col_spec {cnat(nx)} {cnat(ny)} {cQ(s)} {cQ(gs)})", show_spec(T), f"two_col({nx},{ny},{s},{gs})"))
                 ctx.evaluations += 1
